@@ -64,6 +64,27 @@ func runC20(c *Ctx) {
 		}
 		snake(b.String())
 	}
+	// ---- every R4 resource type, enumerated from the ContainedResource oneof (not from the repository's
+	// own table): it can be created by name and reports that type
+	{
+		members := cr.Oneofs().Get(0).Fields()
+		for i := 0; i < members.Len(); i++ {
+			n := string(members.Get(i).Message().Name())
+			var res fhir.Resource
+			var nerr error
+			_, pan, msg := safeErr(func() error {
+				t, err := resource.NewType(n)
+				if err != nil {
+					nerr = err
+					return nil
+				}
+				res = resource.New(t)
+				return nil
+			})
+			c.Observe("create "+n, true)
+			c.Law(!pan && nerr == nil && res != nil && string(resource.TypeOf(res)) == n && resource.IsType(n), "C20/create-by-name", "a new instance of every R4 resource type can be created by name and reports that type", n, fmt.Sprint(nerr, " ", msg))
+		}
+	}
 	// ---- resources: create, TypeOf, wrap/unwrap
 	var all []fhir.Resource
 	for _, n := range resourceNames() {
